@@ -17,6 +17,7 @@ EXPLANATION = (
     "Not decided: that no task is stranded on a sleeping worker's queue for all interleavings.")
 ASSUMPTIONS = ["pika::detail::throws_if returns normally when the caller passed its own error_code",
                "util::yield_while(f) returns only when f() returned false"]
+THOROUGH_CONFIGS = [["-UNDEBUG", "-DPIKA_DEBUG"]]
 FLOORS = {"C19.R1": 6, "C19.R2": 5, "C19.R3": 3, "C19.R4": 9, "C19.R5": 3}
 
 POOL = r"^pika::threads::detail::scheduled_thread_pool::"
